@@ -388,11 +388,20 @@ func cmdCfgs(args []string) {
 		}
 		idx := 0
 		off := int(seedFromEnv()) % *stride
+		// lists that mix the wildcard atom with another atom take the short-cut paths of the validators (`*` subsumes the rest):
+		// they are always replayed; the remaining cases are sampled by stride
+		starMix := func(ids []string) bool {
+			if len(ids) < 2 {
+				return false
+			}
+			star := false
+			for _, id := range ids {
+				star = star || strings.HasSuffix(id, "_star")
+			}
+			return star
+		}
 		readCases(*cases, func(line []byte) {
 			idx++
-			if (idx+off)%*stride != 0 {
-				return
-			}
 			var cc struct {
 				O, M, H, E []string
 				S          []bool
@@ -400,6 +409,9 @@ func cmdCfgs(args []string) {
 			}
 			if err := json.Unmarshal(line, &cc); err != nil {
 				fatal("bad case: %v", err)
+			}
+			if (idx+off)%*stride != 0 && !starMix(cc.O) && !starMix(cc.M) && !starMix(cc.H) && !starMix(cc.E) {
+				return
 			}
 			ac := absConfig{Origins: mk(cc.O), Methods: mk(cc.M), ReqH: mk(cc.H), RespH: mk(cc.E),
 				Cred: cc.S[0], Pna: cc.S[1], NoCors: cc.S[2], TolInsecure: cc.S[3], TolPSL: cc.S[4], MaxAge: cc.A, Status: cc.T}
